@@ -167,6 +167,32 @@ def run_case(spec):
             d2_ = fv.max_abs_diff(lm, rm)
             if d2_ > 1e-11 * abs(rm).max():
                 V.append({"kind": f"live_{name}_ne_reference", "mechanism": "stale_or_partial_refresh", "detail": {"sequence": "same buffer overwritten: [1,2,0,3,1]", "position": pos, "max_abs_diff": d2_, "pin": pin}})
+    # ANOTHER operator object in the same process whose matrices have the same shape and the same number of stored entries but
+    # another pattern: one pinned site swapped for a free site of the same degree (nothing learnt from the first object's
+    # matrices - positions of entries, orderings - applies to the second)
+    if fix_psi and fixed is not None and len(fixed):
+        deg = np.bincount(np.asarray(em.edges).ravel(), minlength=n)
+        fset = set(int(x) for x in fixed)
+        swap = None
+        for a in fixed:
+            cand = [int(b_) for b_ in np.flatnonzero(deg == deg[int(a)]) if int(b_) not in fset]
+            if cand:
+                swap = (int(a), cand[len(cand) // 2])
+                break
+        if swap is not None:
+            fixed2 = np.sort(np.array([swap[1] if int(x) == swap[0] else int(x) for x in fixed], dtype=np.int64))
+            live2 = MeshOperators(mesh, SparseSolver.SUPERLU, fixed_sites=fixed2, fix_psi=True)
+            live2.build_operators()
+            for pos, k in enumerate([1, 2, 0, 3, 2]):
+                live2.set_link_exponents(sym[k].copy())
+                Gr2 = fv.gradient_fast(n, em.edges, em.edge_lengths, em.directions, sym[k])
+                Lr2 = fv.laplacian_fast(n, em.edges, em.edge_lengths, em.dual_edge_lengths, mesh.areas, em.directions, sym[k], fixed2)
+                C["twin_pin_set_checks"] = C.get("twin_pin_set_checks", 0) + 1
+                for name, lm, rm in (("gradient", live2.psi_gradient, Gr2), ("laplacian", live2.psi_laplacian, Lr2)):
+                    d2_ = fv.max_abs_diff(lm, rm)
+                    if d2_ > 1e-11 * abs(rm).max():
+                        V.append({"kind": f"live_{name}_ne_reference", "mechanism": "stale_or_partial_refresh" if pos else "build_ne_reference",
+                                  "detail": {"sequence": "second operator object, one pinned site swapped for a free one of equal degree: [1,2,0,3,2]", "position": pos, "max_abs_diff": d2_, "swap": list(swap), "pin": pin}})
     return {
         "violations": V[:10],
         "counters": C,
